@@ -378,3 +378,85 @@ func TestEvalRejected(t *testing.T) {
 		})
 	}
 }
+
+// TestSearch pins the fifth-round translation (search.go): slot pointers (with and without assignment through the receiver),
+// the nil test of a field, an atomic load, division by a variable with its zero guard, a projection view with the static-length
+// guard, map reads and guarded map writes, `<<` on int, `stopAt`.
+func TestSearch(t *testing.T) {
+	wl := []fnSpec{
+		{dir: "pos5", file: "pos5.go", recv: "Eng", name: "Get", lean: "get", slot: "tab", views: map[string]string{"e": "tab tab.isNil"}},
+		{dir: "pos5", file: "pos5.go", recv: "Eng", name: "Put", lean: "put", slot: "tab", views: map[string]string{"e": "flag.load tab"}, mut: map[string]string{"e": "tab"}},
+		{dir: "pos5", file: "pos5.go", recv: "Eng", name: "Note", lean: "note", stopAt: "e.log == nil",
+			views: map[string]string{"e": "n reply reply.isNil seen seen.isNil stack[].k"}, mut: map[string]string{"e": "n reply seen"}},
+		{dir: "pos5", file: "pos5.go", recv: "Eng", name: "Seen", lean: "seen", views: map[string]string{"e": "seen stack[].k"}},
+	}
+	for i := range wl {
+		wl[i].round2, wl[i].round3, wl[i].round5 = true, true, true
+	}
+	withWhitelist(t, []string{""}, wl, func(out map[string]string, errs []error) {
+		for _, e := range errs {
+			t.Errorf("unexpected failure: %v", e)
+		}
+		src := out["Funcs.lean"]
+		if p := os.Getenv("GEN_DUMP"); p != "" {
+			os.WriteFile(p, []byte("def shl {w : Nat} (x : BitVec w) (n : Nat) : BitVec w := if n < w then x <<< n else 0#w\n"+prelude5+src), 0o644)
+		}
+		for _, want := range []string{
+			// a pointer result into the view `tab` is an index; `== nil` of the field is its own view
+			"def get (e_tab : Array (Entry)) (e_tab_isNil : Bool) (h : BitVec 64) : Option (Option Nat) :=\n  if e_tab_isNil then\n    some (none)",
+			// division by a variable: Go's divide-by-zero panic
+			"if ((BitVec.ofInt 64 (Int.ofNat e_tab.size)) == 0#64) then none else\n    let i : BitVec 64 := (h % (BitVec.ofInt 64 (Int.ofNat e_tab.size)))",
+			// `te := &e.tab[i]`: index guard, then the index; `te.hash` reads through the current table; `return te`
+			"if !(decide (i.toNat < e_tab.size)) then none else\n    let te : Nat := i.toNat\n    if ((e_tab.getD te (default : Entry)).hash == h) then\n      some ((some te))",
+			// re-targeting the pointer
+			"if !(decide (0 < e_tab.size)) then none else\n      let te : Nat := 0",
+			// atomic load = a view; slot function with assignment: (slot, table)
+			"def put (e_flag_load : Int) (e_tab : Array (Entry)) (h : BitVec 64) : Option (Option Nat × Array (Entry)) :=\n  if (e_flag_load != (0 : Int)) then\n    some ((none, e_tab))",
+			"let e_tab := e_tab.setIfInBounds 0 (e_tab.getD i.toNat (default : Entry))",
+			"some (((some i.toNat), e_tab))",
+			// maps: guarded write, read-modify-write, `<<` on int through the 64-bit representation
+			"if e_seen_isNil then none else\n  let e_seen := mapPut e_seen k (((mapGet e_seen k).getD (0 : Int)) + (BitVec.toInt (shl (BitVec.ofInt 64 (1 : Int)) ((Int.toNat (d % 18446744073709551616))))))",
+			// projection view: static-length guard, then the element of the projected array as the map key
+			"if !(decide ((0 : Int) ≤ (ply - (1 : Int))) && decide ((ply - (1 : Int)) < (4 : Int))) then none else\n      if e_reply_isNil then none else\n      let e_reply := mapPut e_reply (e_stack_k.getD (ply - (1 : Int)).toNat (default : Key)) k",
+			// stopAt: the function ends at `if e.log == nil { return }`
+			"| some e_reply =>\n  some ((e_n, e_reply, e_seen))",
+			// map read; constant index into a projection
+			"def seen (e_seen : List (Key × Int)) (e_stack_k : Array (Key)) (k : Key) : Option (Int) :=",
+			"some ((((mapGet e_seen k).getD (0 : Int)) + (e_stack_k.getD 1 (default : Key)).A))",
+		} {
+			if !strings.Contains(src, want) {
+				t.Errorf("generated source lacks:\n%s", want)
+			}
+		}
+		if t.Failed() {
+			t.Logf("generated:\n%s", src)
+		}
+	})
+}
+
+// TestSearchRejected: what the fifth round cannot translate faithfully is refused loudly.
+func TestSearchRejected(t *testing.T) {
+	cases := []struct {
+		name, msg string
+		spec      fnSpec
+	}{
+		{"SlotEscapes", "used as a value", fnSpec{recv: "Store", slot: "tab", views: map[string]string{"s": "tab"}}},
+		{"SlotOther", "may only be given `&tab[e]`", fnSpec{recv: "Store", slot: "tab", views: map[string]string{"s": "tab other"}}},
+		{"TwoLoads", "2 atomic loads", fnSpec{recv: "Store", views: map[string]string{"s": "flag.load"}}},
+		{"MapNoNil", "not among the views declared", fnSpec{recv: "Store", views: map[string]string{"s": "seen"}, mut: map[string]string{"s": "seen"}}},
+		{"ProjUndeclared", "not among the declared projection views", fnSpec{recv: "Store", views: map[string]string{"s": "fr[].w"}}},
+		{"SignedDiv", "division by something that is not a non-zero constant", fnSpec{}},
+	}
+	for _, c := range cases {
+		sp := c.spec
+		sp.dir, sp.file, sp.name, sp.lean, sp.round2, sp.round3, sp.round5 = "neg", "neg.go", c.name, "f", true, true, true
+		withWhitelist(t, []string{""}, []fnSpec{sp}, func(out map[string]string, errs []error) {
+			if len(errs) != 1 || !strings.Contains(errs[0].Error(), c.msg) {
+				t.Errorf("%s: expected one failure mentioning %q, got %v", c.name, c.msg, errs)
+			}
+			if _, written := out["Funcs.lean"]; written {
+				t.Errorf("%s: a group with a failed function must not be written", c.name)
+			}
+		})
+	}
+}
